@@ -47,7 +47,9 @@ def spec(tier, seed):
     return {
         "instances": inst,
         "mir_vcs": [{"name": "apply_modify: offset and frozen line handed from one hunk to the next", "function": "apply_modify", "target": "lib",
-                     "run": lambda f, v, w: _mir.vc_apply_bookkeeping(f, v, w)}],
+                     "run": lambda f, v, w: _mir.vc_apply_bookkeeping(f, v, w)},
+                    {"name": "parse_hunk: the context counters restart at every changed line (one inductive step of the line loop)", "function": "parse_hunk", "target": "lib",
+                     "run": lambda f, v, w: _mir.vc_context_counts_reset(f, v, w)}],
         "level": "model_checking",
         "functions": ["patch::try_apply_hunk", "patch::try_apply_hunk::matches", "HunkView::new", "HunkView::remove_content",
                       "HunkView::add_content", "HunkView::prefix_context", "HunkView::suffix_context", "HunkView::position",
@@ -72,6 +74,8 @@ def spec(tier, seed):
 
 def replay_candidate(v, work, log):
     from .. import replay
+    if "parse_hunk" in (v.get("name") or ""):
+        return replay.replay_by_sweep("C02", v, work, log, module="parser", testname="replay_sweep_hunk_text")
     return replay.replay_by_sweep("C02", v, work, log)
 
 
